@@ -283,7 +283,21 @@ fn main() {
         } else {
             String::new()
         };
-        *LAST_PANIC.lock().unwrap() = format!("{} @ {}", msg, loc);
+        // the innermost functions of the library on the stack identify the call site independently of line numbers
+        let bt = std::backtrace::Backtrace::force_capture().to_string();
+        let mut callers: Vec<String> = Vec::new();
+        for l in bt.lines() {
+            let t = l.trim();
+            if let Some(i) = t.find("cc6502::") {
+                let mut f = t[i..].to_string();
+                if let Some(j) = f.find("::{{closure}}") { f.truncate(j); }
+                if let Some(j) = f.rfind("::h") { if f.len() - j == 19 { f.truncate(j); } }
+                let f = f.replace("cc6502::", "");
+                if callers.last() != Some(&f) && !f.starts_with("compile::compile") { callers.push(f); }
+                if callers.len() >= 3 { break; }
+            }
+        }
+        *LAST_PANIC.lock().unwrap() = format!("{} @ {} @ {}", msg, loc, callers.join(" < "));
     }));
     let argv: Vec<String> = std::env::args().collect();
     let mode = argv[1].clone();
